@@ -9,4 +9,22 @@ CLAIMS = {
                 note="expiration workers and goroutines spawned by the handler run ungated; revocation of the exhausted token is awaited with a bounded wait (timeouts are recorded as inconclusive, never as violations)",
                 technique=PBT + ": schedule exploration with a harness-owned storage-step scheduler, invariant over the history"),
 }
+CLAIMS.update({
+    "C04": dict(category="exploration",
+                text="three generated searches on a real in-memory core with a recording backend: (a) rapid state-machine histories over a token-forest model (create/orphan, cubbyhole, leases, five revocation routes, restart) probing every token after every step; (b) for generated trees, every storage operation of the revocation request fails once (quick: a spread sample of positions) then retry, and every crash prefix of its writes followed by restart and retry; (c) harness-owned storage-step schedules of tree revocation || child creation || lease issue. Found and fixed two defects (see known_findings.json 'fixed'), records two known findings (create/lease racing a tree revocation)",
+                note="leases are judged 'revoked or queued': entry absent, expiry not in the future, irrevocable, or revoked at the recording backend; root namespace only; TTL-lapse revocation is not exercised here (C05); schedules gate only the request goroutines",
+                technique=PBT + ": model-based state machine + fault/crash-point enumeration + schedule exploration with a harness-owned scheduler"),
+    "C06": dict(category="fault_enumeration",
+                text="for nine request shapes (leased secret plain/wrapped/with use-limited token, login plain/wrapped through a recording credential backend, token create plain/role/orphan/wrapped) every storage operation of the request fails once (quick: <=16 spread positions per shape, thorough: all), and every crash prefix of its writes is restarted; oracle over storage and the recording backend: handed-out secret => lease + token index, handed-out token => usable and leased; after an error no usable token without lease, no index without lease / lease without index, every generated secret revoked at the backend or covered by a lease",
+                note="single fault per request; after a crash only 'no usable token without a lease' is asserted (nothing was handed out); batch tokens carry no lease and are not judged",
+                technique=PBT + ": fault-injection and crash-point enumeration over storage operations with an invariant oracle"),
+    "C05": dict(category="exploration",
+                text="framework level: CalculateTTL over the full lattice of increment/backend TTL/period/backend max/explicit max/system max/elapsed time, bracketed by clock readings so 'now+ttl <= issue+effMax' is exact; renew sequences (direct and through LeaseExtend) never push the absolute expiry past issue+effMax; whole-server level (unit added separately): lease tracking invariant across restarts",
+                note="warning texts and lower bounds are not asserted; the server-level unit covers tracking of stored leases",
+                technique=PBT + ": bound oracle over generated inputs and renew sequences"),
+    "C11": dict(category="exploration",
+                text="audit formatter: generated LogInputs with a fresh canary at every string/[]byte leaf and every token/accessor field, formatted by the real AuditFormatter + JSON writer + salt under all hmac_accessor / non-HMAC-key / elide settings; no canary may appear outside exempted keys, every leaf must equal the documented transform, inputs must be unmodified; broker ordering unit added separately",
+                note="integer precision beyond 2^53, warnings/error text/headers are not asserted",
+                technique=PBT + ": canary search + exact reference transform + input immutability"),
+})
 NOT_APPLICABLE = {}
